@@ -120,7 +120,7 @@ func (x *Exec) panicIf(st *State, cond T, what string, pos token.Pos) {
 	if cond.S == "false" {
 		return
 	}
-	if x.nopanic {
+	if x.nopanic && x.panicKindSelected(what) {
 		x.emit(st, "nopanic", x.oblName("nopanic@"+what), x.posStr(pos), Not(cond))
 	}
 	if cond.S == "true" {
@@ -130,6 +130,18 @@ func (x *Exec) panicIf(st *State, cond T, what string, pos token.Pos) {
 		panic(pathEnd{}) // this path always panics here: it ends
 	}
 	st.assume(Not(cond), "no panic: "+what)
+}
+
+func (x *Exec) panicKindSelected(what string) bool {
+	if x.root == nil || len(x.root.NoPanicOnly) == 0 {
+		return true
+	}
+	for _, k := range x.root.NoPanicOnly {
+		if strings.Contains(what, k) {
+			return true
+		}
+	}
+	return false
 }
 
 // pathEnd is raised when the current path cannot continue (certain panic); it is caught at the nearest fork.
@@ -536,7 +548,7 @@ func (x *Exec) execInstrs(st *State, fr *Frame, b *ssa.BasicBlock, start int, k 
 			k(st, res)
 			return
 		case *ssa.Panic:
-			if x.nopanic {
+			if x.nopanic && x.panicKindSelected("panic") {
 				x.emit(st, "nopanic", x.oblName("nopanic@panic"), x.posStr(v.Pos()), TFalse)
 			}
 			return
